@@ -441,6 +441,17 @@ class Interp:
                 ci = st.env.const_of(elem[1])
                 if ci is not None and ci < len(fields):
                     return fields[ci]
+                if ci is None and 0 < len(fields) <= 32 and all(is_int(f) for f in fields) and is_int(elem[1]) and \
+                        len(set(f[1] for f in fields)) == 1:
+                    # table lookup with a symbolic (bounds-checked) index: an explicit selection over the entries
+                    w = fields[0][1]
+                    idx = elem[1]
+                    out = C(w, 0)
+                    for i, f in enumerate(fields):
+                        hit = O(1, 'eq', idx, C(idx[1], i))
+                        m_ = O(w, 'sub', C(w, 0), O(w, 'zext', hit))
+                        out = O(w, 'or', out, O(w, 'and', f, m_))
+                    return out
                 return st.fresh(type_bits(elem[2]) if len(elem) > 2 else 8, 'elem')
         if vk == 'hav':
             old, mid, name = v[1], v[2], v[3]
@@ -1229,6 +1240,9 @@ class Interp:
     def trait_impl_types(self, method_path):
         """Types implementing the trait that owns `method_path` (from impl method names in the crate)."""
         trait = method_path.rsplit('::', 1)[0]
+        cache = self.facts.setdefault('_impl_types_cache', {})
+        if trait in cache:
+            return cache[trait]
         tys = set()
         for name in self.fns:
             if name.startswith('<') and (' as %s>::' % trait) in name:
@@ -1246,7 +1260,8 @@ class Interp:
                         inner = inner.rstrip('>')
                         if not inner.startswith('dyn '):
                             tys.add(inner)
-        return sorted(tys)
+        cache[trait] = sorted(tys)
+        return cache[trait]
 
 
 # ---------------------------------------------------------------------------
@@ -1281,7 +1296,8 @@ INT_TYS = {'u8': (8, False), 'u16': (16, False), 'u32': (32, False), 'u64': (64,
            'u128': (128, False), 'i8': (8, True), 'i16': (16, True), 'i32': (32, True), 'i64': (64, True),
            'isize': (64, True), 'i128': (128, True)}
 _INT_METHOD = re.compile(r"^core::num::<impl (\w+)>::(\w+)$")
-_INT_FROM = re.compile(r"^<(\w+) as std::convert::From<(\w+)>>::from$")
+_INT_FROM = re.compile(r"^<(\w+) as (?:std|core)::convert::From<(\w+)>>::from$")
+_INT_FROM2 = re.compile(r"^(?:std|core)::convert::num::<impl (?:std|core)::convert::From<(\w+)> for (\w+)>::from$")
 
 
 def _tuple2(a, b):
@@ -1291,9 +1307,16 @@ def _tuple2(a, b):
 def int_method_model(callee):
     """exact models of the inherent integer methods (core::num::<impl T>::m) and the lossless From conversions"""
     mm = _INT_FROM.match(callee)
-    if mm and mm.group(1) in INT_TYS and mm.group(2) in INT_TYS | {'bool': 0}:
-        dbits = INT_TYS[mm.group(1)][0]
-        ssigned = INT_TYS.get(mm.group(2), (1, False))[1]
+    dst_src = None
+    if mm:
+        dst_src = (mm.group(1), mm.group(2))
+    else:
+        mm = _INT_FROM2.match(callee)
+        if mm:
+            dst_src = (mm.group(2), mm.group(1))
+    if dst_src and dst_src[0] in INT_TYS and dst_src[1] in INT_TYS | {'bool': 0}:
+        dbits = INT_TYS[dst_src[0]][0]
+        ssigned = INT_TYS.get(dst_src[1], (1, False))[1]
 
         def conv(ip, st, fr, t, args, site, dest_ty):
             a = args[0]
@@ -1307,6 +1330,47 @@ def int_method_model(callee):
         return None
     bits, signed = INT_TYS[mm.group(1)]
     meth = mm.group(2)
+    if meth in ('to_le_bytes', 'to_be_bytes', 'to_ne_bytes', 'from_le_bytes', 'from_be_bytes', 'from_ne_bytes'):
+        big = '_be_' in meth
+        n = bits // 8
+
+        def bytes_model(ip, st, fr, t, args, site, dest_ty):
+            a = args[0] if args else None
+            if meth.startswith('to_') and is_int(a):
+                parts = [O(8, 'trunc', O(bits, 'shr', a, C(bits, 8 * i))) if i else O(8, 'trunc', a) for i in range(n)]
+                if big:
+                    parts.reverse()
+                yield (('agg', ('array',), tuple(parts)), st, 'ok', None)
+                return
+            if meth.startswith('from_') and a is not None and a[0] == 'agg' and len(a[2]) == n and all(is_int(x) for x in a[2]):
+                parts = list(a[2])
+                if big:
+                    parts.reverse()
+                out = O(bits, 'zext', parts[0]) if bits > 8 else parts[0]
+                for i in range(1, n):
+                    out = O(bits, 'or', out, O(bits, 'shl', O(bits, 'zext', parts[i]), C(bits, 8 * i)))
+                yield (out, st, 'ok', None)
+                return
+            st.events.append(('extcall', callee, tuple(args), site))
+            yield (st.fresh(type_bits(dest_ty), 'ext:' + meth), st, 'ok', None)
+        return bytes_model
+    if meth in ('checked_add', 'checked_sub', 'checked_mul') and not signed:
+        opn = meth[8:]
+
+        def checked_model(ip, st, fr, t, args, site, dest_ty):
+            if len(args) == 2 and all(is_int(x) for x in args):
+                a, b = args
+                ov = O(1, opn + '_ovf', a, b)
+                opt = 'std::option::Option'
+                s2 = st.copy()
+                if s2.env.assume_eq(ov, 1):
+                    yield (('agg', ('adt', opt, 0, 'None'), ()), s2, 'ok', None)
+                if st.env.assume_eq(ov, 0):
+                    yield (('agg', ('adt', opt, 1, 'Some'), (O(bits, opn, a, b),)), st, 'ok', None)
+                return
+            st.events.append(('extcall', callee, tuple(args), site))
+            yield (st.fresh(0, 'ext:' + meth), st, 'ok', None)
+        return checked_model
 
     def val(f, arity):
         def model(ip, st, fr, t, args, site, dest_ty):
@@ -1423,7 +1487,7 @@ def feasible(env):
     from . import bvproof
     from .bdd import Unsupported
     try:
-        m, conv, K = bvproof.setup(env)
+        m, conv, K = bvproof.setup(env, atoms=True)
     except (Unsupported, RecursionError):
         return True
     return K != 0
